@@ -42,6 +42,9 @@ CHECKS["C12"] = dict(text="The real SegmentationClassGroups / LabelGroup / Label
 CHECKS["C15"] = dict(text="The whole evaluate pipeline runs in the twin with write-protected caller arrays while the solver chooses (a) every combination of constructor flags and per-call options under a symbolic non-decreasing clock and (b) a history of up to two (thorough: three) operations - evaluations of other inputs, construction of other evaluators/handlers, aggregators with and without log_times, reading the metric keys - executed before the compared evaluation; metrics, advertised metric keys and saved configuration must equal those of the reference evaluation made first.",
              note="inputs are fixed concrete label maps chosen to sit between matcher and decision threshold; serial-vs-worker equivalence only up to the order-preserving Pool contract; replays restart the real interpreter per counterexample",
              ref="DESIGN.md section 4 / C15")
+CHECKS["C19"] = dict(text="The real save_to_config/load_from_config, to_yaml/from_yaml, every _yaml_repr and every configurable constructor run over a structural model of ruamel's representer/constructor; the solver chooses every enumerated option lazily, thresholds are free reals and flags free Booleans (so falsy values such as 0.0, False and empty lists are covered); the loaded object graph must have the same classes and private state as the saved one and re-saving must reproduce the node tree, for the evaluator and for each component alone.",
+             note="YAML text layer trusted (run for real on every replay together with a probe evaluation and loading the shipped configurations); derived attributes (_default_result, flat label list) excluded; nested components use fixed inner choices inside the evaluator cases",
+             ref="DESIGN.md section 4 / C19")
 NA = {}
 m = {"version": 1, "setup_cmd": "./bootstrap.sh",
      "hooks": {"guard": "PANOPTICA_VERIF", "enable": "no hooks in /repo: checks re-import /repo/panoptica from the working tree into a private twin with model modules substituted at import time (pv/twin.py)",
